@@ -152,6 +152,20 @@ var props = []PropSpec{
 				Bounds: "0..2 (quick) / 0..3 (thorough) flows with symbolic active/inactive deadlines, readiness and retry count; one step: record for an existing or new key, expiry scan with the callback failing on any subset of keys, or GetExpiryFromExpirePriorityQueue"},
 		},
 	},
+	{
+		ID: "C07", Pkg: "./c07", ReplayPkg: "./cmd/rc07", Level: "model_checking",
+		Assumptions: append([]string{
+			"all records of one flow carry the same flow type and rule actions (the statement is per flow); MaxRetries configured to 1",
+			"the merge combines the record that created the flow with the first record of the other node; later records of an already correlated flow do not change correlate fields",
+			"string correlate fields and the cluster IP are split over {empty/zero, non-empty} with concrete contents (net.IP.String is formatting); numeric correlate fields, flow type and rule actions are symbolic over their full range",
+			"virtual time as in C06 (frozen clock, deadlines shifted by the VerifShiftDeadlines hook)",
+		}, codecAssumptions...),
+		Harnesses: []HarnessSpec{
+			{Func: "Check_History", Reach: []string{"correlation-required", "no-correlation", "withheld", "merged", "exported", "retried", "dropped-after-retries"},
+				Tune: func(c *sym.Config, th bool) { c.ClockMode = "frozen" },
+				Bounds: "histories of 3 (quick) / 4 (thorough) events from {record from source node, record from destination node, expiry scan after all deadlines} on one flow; flow type, egress and ingress rule action symbolic over all 256 values each"},
+		},
+	},
 }
 
 var _ = sym.Config{}
